@@ -74,7 +74,7 @@ pub struct Agg {
     pub violations: BTreeMap<String, (Job, RunResult, Violation)>,
     pub violating_runs: u64,
     pub samples: Vec<Value>,
-    pub hashes: BTreeMap<u64, u64>,
+    pub hashes: BTreeMap<String, u64>,
     /// traces of base histories whose crash points are to be enumerated
     pub enum_bases: Vec<(Job, Value)>,
 }
@@ -99,7 +99,8 @@ impl Agg {
         }
         self.sim_nanos += r.sim_nanos as i128;
         self.steps += r.steps;
-        self.hashes.insert(r.seed, r.log_hash);
+        let variant = job.params.get("variant").and_then(|v| v.as_str()).unwrap_or("-");
+        self.hashes.insert(format!("{:020}:{}", r.seed, variant), r.log_hash);
         if let Verdict::Harness(m) = &r.verdict {
             if self.harness_errors.len() < 20 {
                 self.harness_errors.push(format!("run {} seed {}: {}", r.idx, r.seed, m));
@@ -370,7 +371,7 @@ pub fn run_check(o: &Opts) -> i32 {
     if let Some(p) = &o.hash_log {
         let mut s = String::new();
         for (i, h) in &agg.hashes {
-            s.push_str(&format!("{i:020} {h:016x}\n"));
+            s.push_str(&format!("{i} {h:016x}\n"));
         }
         let _ = std::fs::write(p, s);
     }
